@@ -8,9 +8,23 @@
    (4) magic-numbers and print-statements in files with `#` comments (shared parser, then their generic same-line test or `# noqa`):
        exactly the specification on every file of the domain that does not contain the word "noqa";
    (5) collection-pipeline and stateless-class (shared parser, plus their own file-level and same-line tests over the lowered text):
-       exactly the specification on every file of the domain. *)
+       exactly the specification on every file of the domain;
+   (6) magic-numbers and print-statements in files with `//` comments: exactly the specification on noqa-free files of the domain, for
+       the rules their own bracket needle names; method-property's own line test: any same-line directive, whatever it names. *)
 From TL Require Import Lib.Base Lib.GenTypes Gen.IgnoreGen Model.PyStr Model.Ignore Model.IgnoreSpec Actual.IgnoreActual
      Proofs.IgnoreStr Proofs.IgnoreStr2 Proofs.IgnoreLines Proofs.IgnoreFeat Proofs.IgnoreFeat2 Proofs.IgnoreMain Proofs.IgnoreRules.
+
+From TL Require Model.IgnorePat Actual.IgnorePatActual.
+
+(* which matcher kind the generated table Gen.linter_matchers assigns to each linter of the pattern stream *)
+Lemma linter_matcher_kinds :
+  forallb (fun p => match IgnorePatActual.matcher_of p with IgnorePat.MPathOrSub => true | _ => false end)
+          ["magic_numbers"; "print_statements"; "method_property"; "collection_pipeline"] = true
+  /\ forallb (fun p => match IgnorePatActual.matcher_of p with IgnorePat.MSub => true | _ => false end)
+             ["srp"; "unwrap_abuse"; "clone_abuse"; "blocking_async"] = true
+  /\ forallb (fun p => match IgnorePatActual.matcher_of p with IgnorePat.MNever => true | _ => false end)
+             ["nesting"; "performance"; "lbyl"; "stateless_class"] = true.
+Proof. vm_compute. repeat split; reflexivity. Qed.
 
 Lemma pipeline_table_consistent :
   forallb (fun p => smem p linter_packages && negb (smem p shared_parser_users)) (no_inline_support ++ own_line_check_only) = true
@@ -469,3 +483,145 @@ Qed.
 
 Lemma tl_table lang : pipeline_of "collection_pipeline" lang = PSharedTl tl_needles /\ pipeline_of "stateless_class" lang = PSharedTl tl_needles.
 Proof. split; reflexivity. Qed.
+
+(* ---------- (6) magic-numbers / print-statements in `//` files; method-property's own line test ---------- *)
+Definition no_rb (s : string) : bool := all_chars (fun c => negb (is c93 c)) s.
+
+(* a bracket-free text that starts a closed bracket list whose content is bracket-free too is that content *)
+Lemma closed_prefix_eq : forall L u, no_rb L = true -> no_rb u = true -> prefixb (L ++ "]") (u ++ "]") = true -> u = L.
+Proof.
+  induction L as [|c L IH]; intros u HL Hu P.
+  - destruct u as [|d u]; [reflexivity|]. exfalso. cbn [append prefixb] in P. apply andb_true_iff in P as [E _].
+    apply Ascii.eqb_eq in E. subst d. cbn [no_rb all_chars] in Hu. discriminate.
+  - cbn [no_rb all_chars] in HL. apply andb_true_iff in HL as [Hc HL].
+    destruct u as [|d u].
+    + exfalso. cbn [append prefixb] in P. apply andb_true_iff in P as [E _]. apply Ascii.eqb_eq in E. subst c. discriminate.
+    + cbn [append prefixb] in P. apply andb_true_iff in P as [E P]. apply Ascii.eqb_eq in E. subst d.
+      cbn [no_rb all_chars] in Hu. apply andb_true_iff in Hu as [_ Hu]. f_equal. now apply IH.
+Qed.
+
+Lemma tagged_suffix_slash X st : suffixb "// thailint: " (X ++ tagged st) = match st with Hash => false | Slashes => true end.
+Proof.
+  destruct st.
+  - unfold suffixb, tagged. rewrite srev_app_distr. reflexivity.
+  - exact (suffixb_app X "// thailint: ").
+Qed.
+
+(* the generic `//` test on a (lowered) code line of the domain, for a linter whose own bracket needle names L *)
+Definition generic_ts_line (L : string) (l : aline) : bool :=
+  match l with
+  | LSame _ Slashes Bare => true
+  | LSame _ Slashes (Names t) => String.eqb (lower t) L
+  | _ => false
+  end.
+
+Lemma generic_ts_feature L a k l : no_rb L = true -> noqa_free a = true -> nth_error a k = Some l -> line_ok l = true -> is_code l = true ->
+  generic_ts [("// thailint: " ++ K ++ "[" ++ L ++ "]")%string; ("// thailint: " ++ K)%string; "//"; "["] noqa_slash (lower (render_line l)) = generic_ts_line L l.
+Proof.
+  intros HL N E H C. unfold generic_ts. cbn [nth_str nth].
+  change noqa_slash with ("// " ++ "noqa")%string. rewrite (noqa_absent a k l "// " N E), orb_false_r.
+  destruct l as [c|c st n|ind st n|ind st br n|ind st|st n]; try discriminate.
+  - cbn [line_ok] in H. unfold code_ok in H. apply andb_true_iff in H as [Hk _]. cbn [render_line generic_ts_line].
+    rewrite (plain_no_needle c "// thailint: " ("[" ++ L ++ "]") Hk).
+    rewrite after_first_none; [reflexivity|]. rewrite <- (sapp_nil_r ("// thailint: " ++ K)), sapp_assoc. now apply plain_no_needle.
+  - rewrite (after_first_directive _ "// thailint: " H eq_refl), (lower_pre _ H), tagged_suffix_slash.
+    destruct st.
+    + rewrite (needle_absent_pre _ "// thailint: " ("[" ++ L ++ "]") H eq_refl); [reflexivity|].
+      now rewrite (lower_pre _ H), tagged_suffix_slash.
+    + cbn [generic_ts_line]. rewrite lower_post, lower_names_br. destruct n as [|t].
+      * cbn [before_first prefixb containsb negb]. apply orb_true_r.
+      * assert (B : negb (containsb "[" (before_first "//" ("[" ++ lower t ++ "]"))) = false) by reflexivity.
+        rewrite B, orb_false_r.
+        destruct (String.eqb (lower t) L) eqn:EL.
+        -- apply String.eqb_eq in EL.
+           apply (needle_present (LSame c Slashes (Names t)) "// thailint: " ("[" ++ L ++ "]") eq_refl).
+           ++ rewrite (lower_pre _ H). now rewrite tagged_suffix_slash.
+           ++ rewrite lower_post, lower_names_br, EL. apply prefixb_refl.
+        -- destruct (containsb ("// thailint: " ++ K ++ "[" ++ L ++ "]") (lower (render_line (LSame c Slashes (Names t))))) eqn:P; [|reflexivity].
+           exfalso. rewrite (lower_render _ (eq_refl : directive (LSame c Slashes (Names t)) = true)) in P.
+           apply unique_occ_suffix in P; [|now apply once].
+           rewrite lower_post, lower_names_br in P. cbn [append prefixb] in P. rewrite Ascii.eqb_refl in P. cbn [andb] in P.
+           cbn [line_ok] in H. apply andb_true_iff in H as [_ Hn]. destruct (names_parts _ (names_ok_lower t Hn)) as (_ & _ & Hb).
+           apply (closed_prefix_eq L (lower t) HL Hb) in P. apply String.eqb_neq in EL. congruence.
+Qed.
+
+Theorem generic_ts_pipeline_exact L q a v r : no_rb L = true -> named (bracket_rules (Names L)) r = true ->
+  file_ok a = true -> target_ok a v = true -> nonempty r = true -> avoids q a = true -> noqa_free a = true ->
+  suppressed q (PSharedGenericTs [("// thailint: " ++ K ++ "[" ++ L ++ "]")%string; ("// thailint: " ++ K)%string; "//"; "["]) (render a) v r = spec false a v r.
+Proof.
+  intros HL HR H T Hr A N. pose proof (should_ignore_exact q false a v r H T Hr A) as Sx.
+  unfold should_ignore, should_ignore_lines in Sx. cbn [orb] in Sx.
+  unfold suppressed, suppressed_pre. cbn [uses_shared andb extra_check]. rewrite Sx.
+  unfold avoids in A. rewrite (lines_of_render q a H A).
+  unfold target_ok in T. destruct v as [|k]; [discriminate|]. destruct (nth_error a k) as [l|] eqn:E; [|discriminate].
+  assert (Lk : k < List.length a) by (apply nth_error_Some; congruence).
+  unfold line_lower. rewrite !map_length.
+  change (S k =? 0) with false. assert (E1 : (List.length a <? S k) = false) by (apply Nat.ltb_ge; lia). rewrite E1. cbn [orb].
+  cbn [Nat.sub]. rewrite Nat.sub_0_r, nth_error_prepared, E. cbn [option_map prepare pl_text].
+  rewrite (generic_ts_feature L a k l HL N E (forallb_nth _ _ _ _ H E) T).
+  destruct (generic_ts_line L l) eqn:G; [|apply orb_false_r].
+  assert (Sp : spec_same a (S k) r = true).
+  { unfold spec_same. rewrite E.
+    destruct l as [c|c st n|ind st n|ind st br n|ind st|st n]; try discriminate. destruct st; try discriminate. destruct n as [|t]; [reflexivity|].
+    cbn [generic_ts_line] in G. apply String.eqb_eq in G.
+    assert (LL : lower L = L) by (rewrite <- G; apply lower_idem).
+    rewrite <- (tl_entries_named t r), G, <- LL. rewrite (tl_entries_named L r). exact HR. }
+  unfold spec. now rewrite Sp, !orb_true_r.
+Qed.
+
+(* the two instances of the tree *)
+Lemma generic_ts_tables :
+  pipeline_of "magic_numbers" "ts" = PSharedGenericTs [("// thailint: " ++ K ++ "[" ++ "magic-numbers" ++ "]")%string; ("// thailint: " ++ K)%string; "//"; "["]
+  /\ pipeline_of "print_statements" "ts" = PSharedGenericTs [("// thailint: " ++ K ++ "[" ++ "print-statements" ++ "]")%string; ("// thailint: " ++ K)%string; "//"; "["].
+Proof. split; reflexivity. Qed.
+
+Lemma named_single L r : map strip (split_on "," L) = [L] -> named (bracket_rules (Names L)) r = rule_matches r L.
+Proof. intro E. unfold named, bracket_rules. rewrite E. cbn [existsb]. apply orb_false_r. Qed.
+
+Theorem magic_ts_pipeline_exact q a v r : rule_matches r "magic-numbers" = true ->
+  file_ok a = true -> target_ok a v = true -> nonempty r = true -> avoids q a = true -> noqa_free a = true ->
+  suppressed q (pipeline_of "magic_numbers" "ts") (render a) v r = spec false a v r.
+Proof.
+  intro HR. destruct generic_ts_tables as [E _]. rewrite E. apply generic_ts_pipeline_exact; [reflexivity|].
+  rewrite (named_single "magic-numbers" r eq_refl). exact HR.
+Qed.
+
+Theorem print_ts_pipeline_exact q a v r : rule_matches r "print-statements" = true ->
+  file_ok a = true -> target_ok a v = true -> nonempty r = true -> avoids q a = true -> noqa_free a = true ->
+  suppressed q (pipeline_of "print_statements" "ts") (render a) v r = spec false a v r.
+Proof.
+  intro HR. destruct generic_ts_tables as [_ E]. rewrite E. apply generic_ts_pipeline_exact; [reflexivity|].
+  rewrite (named_single "print-statements" r eq_refl). exact HR.
+Qed.
+
+(* method-property (no shared parser, its own line test): on files without "noqa" it honours ANY same-line directive, whatever it
+   names, and nothing else - the exact extent of the finding own_line_check_only[method_property] *)
+Theorem own_line_pipeline_exact q a v r :
+  file_ok a = true -> target_ok a v = true -> avoids q a = true -> noqa_free a = true ->
+  suppressed q (POwnLine method_property_needles) (render a) v r =
+  match nth_error a (v - 1) with Some (LSame _ _ _) => true | _ => false end.
+Proof.
+  intros H T A N. unfold suppressed, suppressed_pre. cbn [uses_shared andb orb extra_check].
+  unfold avoids in A. rewrite (lines_of_render q a H A).
+  unfold target_ok in T. destruct v as [|k]; [discriminate|]. destruct (nth_error a k) as [l|] eqn:E; [|discriminate].
+  assert (Lk : k < List.length a) by (apply nth_error_Some; congruence).
+  unfold line_lower. rewrite !map_length.
+  change (S k =? 0) with false. assert (E1 : (List.length a <? S k) = false) by (apply Nat.ltb_ge; lia). rewrite E1. cbn [orb].
+  cbn [Nat.sub]. rewrite Nat.sub_0_r, nth_error_prepared, E. cbn [option_map prepare pl_text].
+  change (nth_str 0 method_property_needles) with "thailint:". change (nth_str 1 method_property_needles) with ("" ++ K ++ "")%string.
+  change (nth_str 2 method_property_needles) with ("# " ++ "noqa")%string.
+  rewrite (noqa_absent a k l "# " N E), orb_false_r.
+  pose proof (forallb_nth _ _ _ _ H E) as Hl.
+  destruct l as [c|c st n|ind st n|ind st br n|ind st|st n]; try discriminate.
+  - cbn [line_ok] in Hl. unfold code_ok in Hl. apply andb_true_iff in Hl as [Hk _]. cbn [render_line].
+    now rewrite (plain_no_needle _ "" "" Hk), andb_false_r.
+  - rewrite (needle_present (LSame c st n) "" "" eq_refl (suffixb_nil _) (prefixb_nil _)), andb_true_r.
+    cbn [render_line]. rewrite !lower_app, lower_cm. apply containsb_app_r, containsb_app_r, containsb_app_r.
+    apply containsb_app_l. change (lower " thailint: ignore") with (" " ++ "thailint:" ++ " ignore")%string. apply containsb_mid.
+Qed.
+
+(* the linters without any inline suppression: nothing is ever suppressed, whatever the text says *)
+Theorem no_inline_never q pkg lang content v r : In pkg no_inline_support -> suppressed q (pipeline_of pkg lang) content v r = false.
+Proof.
+  unfold no_inline_support. cbn [In]. intros [E|[E|[E|[E|[E|[]]]]]]; subst pkg; reflexivity.
+Qed.
